@@ -457,6 +457,15 @@ def run(ctx):
         args[p] = ev3.symbol(p)
     out = ev3.eval_function(fk, args)
     val = out.value()
+    # the thresholds reach the selection under their own names: knees(points, dx, dy, dz, ..) calls getPoints with dx as dx, dy as dy, dz as dz
+    gp = rc.func("zmethod.getPoints")
+    gpos = gp.signature.positional
+    for e_ in [e_ for e_ in out.events if e_.kind == "call" and e_.target == "zmethod.getPoints"]:
+        amap_ = dict(zip(gpos, e_.args))
+        for nm_ in ("dx", "dy", "dz", "x_max", "y_range"):
+            if nm_ in amap_ and nm_ in args and isinstance(amap_[nm_], Rat) and isinstance(args[nm_], Rat) and not amap_[nm_].equals(args[nm_]):
+                res.violation("Z4", fk.module, fk.name, e_.node, f"knees() hands getPoints `{_short(amap_[nm_], 40)}` as its {nm_}: the separation the caller asked for is not the one applied",
+                              f"{nm_}={_short(amap_[nm_], 40)}", f"{nm_}={nm_}", construct=f"getPoints {nm_}")
     def _mapped(v):
         if isinstance(v, Rat):
             for at in v.all_atoms():
